@@ -27,7 +27,7 @@ for s in seeds:
             print(s, 'patch does not apply to HEAD'); results[s] = {'applies': False}; continue
         env = dict(os.environ, VERIF_REPO=wt, VERIF_EVIDENCE_DIR=ev)
         caught, broken, lines = [], [], {}
-        for pid in claimed:
+        for pid in ([s[:3]] if os.environ.get('SEEDRUN_OWN') else claimed):
             p = subprocess.run([os.path.join(V, 'check'), pid], capture_output=True, text=True, env=env, cwd=V)
             if p.returncode == 1:
                 caught.append(pid)
